@@ -13,8 +13,8 @@ namespace Pharmpy.C08
     feature is detected, the other categories are unchanged (up to the inherent/documented couplings
     spelled out in `frame`), or the request is refused for the documented reason; never an internal
     error, never a graph outside the family. -/
-theorem setFV_allowed_partial (r : Req) (s : FV) (hwf : s.WF) (hd : defectOf r s = none) :
-    Allowed r s (setFV r s) = true := by
+theorem setFV_allowed_partial (c : Ctx) (r : Req) (s : FV) (hwf : s.WF) (hd : defectOf c r s = none) :
+    Allowed r s (setFV c r s) = true := by
   obtain ⟨zo, n, d, k, e, l, b⟩ := s
   cases r with
   | abs a =>
@@ -26,43 +26,44 @@ theorem setFV_allowed_partial (r : Req) (s : FV) (hwf : s.WF) (hd : defectOf r s
   | periphAdd => simp [setFV, Allowed, achieves, frame]
   | periphRemove => simp [setFV, Allowed, achieves, frame]
   | transits m keep =>
-    cases keep <;> cases zo <;> cases d <;> cases l <;> cases b <;>
+    obtain ⟨mdt⟩ := c
+    cases mdt <;> cases keep <;> cases zo <;> cases d <;> cases l <;> cases b <;>
       by_cases h0 : n = 0 <;> by_cases hm0 : m = 0 <;> by_cases hm1 : m = 1 <;> by_cases hnm : n = m <;>
-      simp_all [setFV, setTransits, FV.abs, FV.chain, Allowed, achieves, frame, defectOf, FV.WF, mayRefuse] <;>
+      simp_all [setFV, setTransits, transitsTail, defectTransitsTail, FV.abs, FV.chain, Allowed, achieves, frame, defectOf, FV.WF, mayRefuse] <;>
       omega
   | lag on => simp [setFV, Allowed, achieves, frame]
   | bio on => simp [setFV, Allowed, achieves, frame]
 
 
 /-- Non-vacuity: a non-trivial request outside every defect class. -/
-example : (FV.mk false 0 true 2 .mm true true).WF ∧ defectOf (.transits 3 true) ⟨false, 0, true, 2, .mm, false, true⟩ = none
-    ∧ setFV (.transits 3 true) ⟨false, 0, true, 2, .mm, false, true⟩ = .ok ⟨false, 3, true, 2, .mm, false, true⟩ := by decide
+example : (FV.mk false 0 true 2 .mm true true).WF ∧ defectOf ⟨false⟩ (.transits 3 true) ⟨false, 0, true, 2, .mm, false, true⟩ = none
+    ∧ setFV ⟨false⟩ (.transits 3 true) ⟨false, 0, true, 2, .mm, false, true⟩ = .ok ⟨false, 3, true, 2, .mm, false, true⟩ := by decide
 
 /-- The full statement (without the side-condition) is false of the code: every defect class has a
     well-formed witness on which `setFV` — the mirror of the code — is not what the statement allows. -/
 theorem setFV_allowed_witness :
-    ∀ c : DefectClass, ∃ r s, s.WF ∧ defectOf r s = some c ∧ Allowed r s (setFV r s) = false := by
+    ∀ c : DefectClass, ∃ x r s, s.WF ∧ defectOf x r s = some c ∧ Allowed r s (setFV x r s) = false := by
   intro c
   cases c
-  · exact ⟨.transits 3 true, ⟨false, 0, true, 0, .fo, true, false⟩, by decide⟩
-  · exact ⟨.transits 0 true, ⟨false, 3, true, 0, .fo, false, true⟩, by decide⟩
-  · exact ⟨.transits 2 false, ⟨false, 1, true, 0, .fo, false, false⟩, by decide⟩
-  · exact ⟨.transits 1 true, ⟨true, 0, false, 0, .fo, false, false⟩, by decide⟩
-  · exact ⟨.abs .fo, ⟨true, 2, true, 0, .fo, false, false⟩, by decide⟩
-  · exact ⟨.abs .fo, ⟨true, 0, true, 0, .fo, true, false⟩, by decide⟩
-  · exact ⟨.abs .zo, ⟨false, 3, true, 0, .fo, false, false⟩, by decide⟩
-  · exact ⟨.abs .seq, ⟨false, 2, true, 0, .fo, false, false⟩, by decide⟩
-  · exact ⟨.abs .seq, ⟨true, 0, false, 0, .fo, false, true⟩, by decide⟩
-  · exact ⟨.abs .inst, ⟨false, 2, false, 0, .fo, false, false⟩, by decide⟩
-  · exact ⟨.abs .inst, ⟨true, 0, true, 0, .fo, false, false⟩, by decide⟩
-  · exact ⟨.abs .inst, ⟨false, 0, true, 0, .fo, false, true⟩, by decide⟩
+  · exact ⟨⟨false⟩, .transits 3 true, ⟨false, 0, true, 0, .fo, true, false⟩, by decide⟩
+  · exact ⟨⟨false⟩, .transits 0 true, ⟨false, 3, true, 0, .fo, false, true⟩, by decide⟩
+  · exact ⟨⟨true⟩, .transits 2 false, ⟨false, 1, true, 0, .fo, false, false⟩, by decide⟩
+  · exact ⟨⟨false⟩, .transits 1 true, ⟨true, 0, false, 0, .fo, false, false⟩, by decide⟩
+  · exact ⟨⟨false⟩, .abs .fo, ⟨true, 2, true, 0, .fo, false, false⟩, by decide⟩
+  · exact ⟨⟨false⟩, .abs .fo, ⟨true, 0, true, 0, .fo, true, false⟩, by decide⟩
+  · exact ⟨⟨false⟩, .abs .zo, ⟨false, 3, true, 0, .fo, false, false⟩, by decide⟩
+  · exact ⟨⟨false⟩, .abs .seq, ⟨false, 2, true, 0, .fo, false, false⟩, by decide⟩
+  · exact ⟨⟨false⟩, .abs .seq, ⟨true, 0, false, 0, .fo, false, true⟩, by decide⟩
+  · exact ⟨⟨false⟩, .abs .inst, ⟨false, 2, false, 0, .fo, false, false⟩, by decide⟩
+  · exact ⟨⟨false⟩, .abs .inst, ⟨true, 0, true, 0, .fo, false, false⟩, by decide⟩
+  · exact ⟨⟨false⟩, .abs .inst, ⟨false, 0, true, 0, .fo, false, true⟩, by decide⟩
 
 /-- Totality: outside the defect classes a request either succeeds or is refused for the documented
     reason (one transit compartment without a depot behind it); nothing else happens. -/
-theorem setFV_total_partial (r : Req) (s : FV) (hwf : s.WF) (hd : defectOf r s = none) :
-    (∃ s', setFV r s = .ok s') ∨ (setFV r s = .refuse ∧ mayRefuse r s = true) := by
-  have h := setFV_allowed_partial r s hwf hd
-  cases ho : setFV r s with
+theorem setFV_total_partial (c : Ctx) (r : Req) (s : FV) (hwf : s.WF) (hd : defectOf c r s = none) :
+    (∃ s', setFV c r s = .ok s') ∨ (setFV c r s = .refuse ∧ mayRefuse r s = true) := by
+  have h := setFV_allowed_partial c r s hwf hd
+  cases ho : setFV c r s with
   | ok s' => exact Or.inl ⟨s', rfl⟩
   | refuse => rw [ho] at h; exact Or.inr ⟨rfl, by simpa [Allowed] using h⟩
   | internal => rw [ho] at h; simp [Allowed] at h
@@ -71,22 +72,23 @@ theorem setFV_total_partial (r : Req) (s : FV) (hwf : s.WF) (hd : defectOf r s =
   | internalOrOff => rw [ho] at h; simp [Allowed] at h
 
 /-- A refusal of the machine is always the documented one (no side-condition). -/
-theorem setFV_refuse_documented (r : Req) (s : FV) (h : setFV r s = .refuse) : mayRefuse r s = true := by
+theorem setFV_refuse_documented (c : Ctx) (r : Req) (s : FV) (h : setFV c r s = .refuse) : mayRefuse r s = true := by
   obtain ⟨zo, n, d, k, e, l, b⟩ := s
   cases r with
   | abs a =>
     cases a <;> cases zo <;> cases d <;> by_cases h0 : n = 0 <;>
       simp_all [setFV, setAbs, FV.abs, FV.chain]
   | transits m keep =>
-    cases keep <;> cases zo <;> cases d <;> cases l <;>
+    obtain ⟨mdt⟩ := c
+    cases mdt <;> cases keep <;> cases zo <;> cases d <;> cases l <;>
       by_cases h0 : n = 0 <;> by_cases hm0 : m = 0 <;> by_cases hm1 : m = 1 <;> by_cases hnm : n = m <;>
-      simp_all [setFV, setTransits, FV.abs, FV.chain, mayRefuse] <;> omega
+      simp_all [setFV, setTransits, transitsTail, defectTransitsTail, FV.abs, FV.chain, mayRefuse] <;> omega
   | _ => simp [setFV] at h
 
 /-- Elimination and peripheral compartments are orthogonal to everything else — without any
     side-condition: no request of another category ever changes them, and their own requests change
     nothing else. -/
-theorem setFV_frame_elim_periph (r : Req) (s s' : FV) (h : setFV r s = .ok s') :
+theorem setFV_frame_elim_periph (c : Ctx) (r : Req) (s s' : FV) (h : setFV c r s = .ok s') :
     ((∀ e, r ≠ .elim e) → s'.elim = s.elim) ∧
     ((∀ k, r ≠ .periph k) → r ≠ .periphAdd → r ≠ .periphRemove → s'.periph = s.periph) ∧
     ((∃ e, r = .elim e) ∨ (∃ k, r = .periph k) ∨ r = .periphAdd ∨ r = .periphRemove →
@@ -97,9 +99,10 @@ theorem setFV_frame_elim_periph (r : Req) (s s' : FV) (h : setFV r s = .ok s') :
     cases a <;> cases zo <;> cases d <;> by_cases h0 : n = 0 <;>
       simp_all [setFV, setAbs, FV.abs, FV.chain] <;> (subst h; simp)
   | transits m keep =>
-    cases keep <;> cases zo <;> cases d <;> cases l <;>
+    obtain ⟨mdt⟩ := c
+    cases mdt <;> cases keep <;> cases zo <;> cases d <;> cases l <;>
       by_cases h0 : n = 0 <;> by_cases hm0 : m = 0 <;> by_cases hm1 : m = 1 <;> by_cases hnm : n = m <;>
-      simp_all [setFV, setTransits, FV.abs, FV.chain] <;> (try subst h) <;> simp_all
+      simp_all [setFV, setTransits, transitsTail, defectTransitsTail, FV.abs, FV.chain] <;> (try subst h) <;> simp_all
   | elim e' => simp [setFV] at h; subst h; simp
   | periph k' => simp [setFV] at h; subst h; simp
   | periphAdd => simp [setFV] at h; subst h; simp
@@ -108,16 +111,17 @@ theorem setFV_frame_elim_periph (r : Req) (s s' : FV) (h : setFV r s = .ok s') :
   | bio on => simp [setFV] at h; subst h; simp
 
 /-- Well-formedness (a lone transit compartment is never produced as "transits = 1, no depot"). -/
-theorem setFV_wf (r : Req) (s s' : FV) (hwf : s.WF) (h : setFV r s = .ok s') : s'.WF := by
+theorem setFV_wf (c : Ctx) (r : Req) (s s' : FV) (hwf : s.WF) (h : setFV c r s = .ok s') : s'.WF := by
   obtain ⟨zo, n, d, k, e, l, b⟩ := s
   cases r with
   | abs a =>
     cases a <;> cases zo <;> cases d <;> by_cases h0 : n = 0 <;>
       simp_all [setFV, setAbs, FV.abs, FV.chain, FV.WF] <;> (subst h; simp_all)
   | transits m keep =>
-    cases keep <;> cases zo <;> cases d <;> cases l <;>
+    obtain ⟨mdt⟩ := c
+    cases mdt <;> cases keep <;> cases zo <;> cases d <;> cases l <;>
       by_cases h0 : n = 0 <;> by_cases hm0 : m = 0 <;> by_cases hm1 : m = 1 <;> by_cases hnm : n = m <;>
-      simp_all [setFV, setTransits, FV.abs, FV.chain, FV.WF] <;> (try subst h) <;> simp_all <;> omega
+      simp_all [setFV, setTransits, transitsTail, defectTransitsTail, FV.abs, FV.chain, FV.WF] <;> (try subst h) <;> simp_all <;> omega
   | elim e' => simp [setFV] at h; subst h; simpa [FV.WF] using hwf
   | periph k' => simp [setFV] at h; subst h; simpa [FV.WF] using hwf
   | periphAdd => simp [setFV] at h; subst h; simpa [FV.WF] using hwf
@@ -125,20 +129,22 @@ theorem setFV_wf (r : Req) (s s' : FV) (hwf : s.WF) (h : setFV r s = .ok s') : s
   | lag on => simp [setFV] at h; subst h; simpa [FV.WF] using hwf
   | bio on => simp [setFV] at h; subst h; simpa [FV.WF] using hwf
 
+set_option maxHeartbeats 1600000 in
 /-- Requesting the same feature again changes nothing (every request except the two relative ones
     `add_/remove_peripheral_compartment`, which are not feature requests). -/
-theorem setFV_idempotent_partial (r : Req) (s s' : FV) (hwf : s.WF) (hd : defectOf r s = none)
-    (hr : r ≠ .periphAdd ∧ r ≠ .periphRemove) (h : setFV r s = .ok s') : setFV r s' = .ok s' := by
+theorem setFV_idempotent_partial (c c' : Ctx) (r : Req) (s s' : FV) (hwf : s.WF) (hd : defectOf c r s = none)
+    (hr : r ≠ .periphAdd ∧ r ≠ .periphRemove) (h : setFV c r s = .ok s') : setFV c' r s' = .ok s' := by
   obtain ⟨zo, n, d, k, e, l, b⟩ := s
   cases r with
   | abs a =>
     cases a <;> cases zo <;> cases d <;> cases l <;> cases b <;> by_cases h0 : n = 0 <;>
       simp_all [setFV, setAbs, FV.abs, FV.chain, FV.WF, defectOf] <;> (subst h; simp_all [FV.abs, FV.chain])
   | transits m keep =>
-    cases keep <;> cases zo <;> cases d <;> cases l <;> cases b <;>
+    obtain ⟨mdt⟩ := c
+    cases mdt <;> cases keep <;> cases zo <;> cases d <;> cases l <;> cases b <;>
       by_cases h0 : n = 0 <;> by_cases hm0 : m = 0 <;> by_cases hm1 : m = 1 <;> by_cases hnm : n = m <;>
-      simp_all [setFV, setTransits, FV.abs, FV.chain, FV.WF, defectOf] <;> (try subst h) <;>
-      simp_all [setTransits, FV.abs, FV.chain] <;> omega
+      simp_all [setFV, setTransits, transitsTail, defectTransitsTail, FV.abs, FV.chain, FV.WF, defectOf] <;> (try subst h) <;>
+      simp_all [setTransits, transitsTail, defectTransitsTail, FV.abs, FV.chain] <;> omega
   | elim e' => simp [setFV] at h; subst h; simp [setFV]
   | periph k' => simp [setFV] at h; subst h; simp [setFV]
   | periphAdd => simp at hr
@@ -150,16 +156,17 @@ theorem setFV_idempotent_partial (r : Req) (s s' : FV) (hwf : s.WF) (hd : defect
     zero-order model is accepted, and the same request on the result is accepted again with a
     different outcome (on the real code it raises NetworkXUnfeasible). -/
 theorem setFV_idempotent_witness :
-    ∃ r s, s.WF ∧ setFV r s ≠ .refuse ∧ (∀ s', setFV r s = .ok s' → setFV r s' ≠ .ok s') ∧ defectOf r s ≠ none :=
-  ⟨.transits 1 true, ⟨true, 0, false, 0, .fo, false, false⟩, by decide, by decide, by simp [setFV, setTransits, FV.abs, FV.chain], by decide⟩
+    ∃ c r s, s.WF ∧ setFV c r s ≠ .refuse ∧ (∀ s', setFV c r s = .ok s' → setFV c r s' ≠ .ok s') ∧ defectOf c r s ≠ none :=
+  ⟨⟨false⟩, .transits 1 true, ⟨true, 0, false, 0, .fo, false, false⟩, by decide, by decide, by simp [setFV, setTransits, transitsTail, defectTransitsTail, FV.abs, FV.chain], by decide⟩
 
+set_option maxHeartbeats 1600000 in
 /-- Undoing an added feature restores the feature vector: for a request that adds structure, outside
     the defect classes (of the request and of its undo) and when no lag time is involved in an
     absorption change (the documented INST / SEQ-ZO-FO coupling). -/
-theorem undo_restores_partial (r : Req) (s s' : FV) (hwf : s.WF) (hadd : additive r s = true)
-    (hd : defectOf r s = none) (h : setFV r s = .ok s') (hd' : defectOf (undo r s) s' = none)
+theorem undo_restores_partial (c c' : Ctx) (r : Req) (s s' : FV) (hwf : s.WF) (hadd : additive r s = true)
+    (hd : defectOf c r s = none) (h : setFV c r s = .ok s') (hd' : defectOf c' (undo r s) s' = none)
     (hlag : (∃ a, r = .abs a) → s.lag = false) :
-    setFV (undo r s) s' = .ok s := by
+    setFV c' (undo r s) s' = .ok s := by
   obtain ⟨zo, n, d, k, e, l, b⟩ := s
   cases r with
   | abs a =>
@@ -169,11 +176,12 @@ theorem undo_restores_partial (r : Req) (s s' : FV) (hwf : s.WF) (hadd : additiv
       simp_all [setFV, setAbs, FV.abs, FV.chain, FV.WF, defectOf, undo, additive] <;>
       (subst h; simp_all [setAbs, FV.abs, FV.chain, defectOf])
   | transits m keep =>
-    cases keep <;> cases zo <;> cases d <;> cases l <;> cases b <;>
+    obtain ⟨mdt⟩ := c
+    cases mdt <;> cases keep <;> cases zo <;> cases d <;> cases l <;> cases b <;>
       by_cases h0 : n = 0 <;> by_cases hm0 : m = 0 <;> by_cases hm1 : m = 1 <;> by_cases hnm : n = m <;>
       by_cases hn1 : n = 1 <;>
-      simp_all [setFV, setTransits, FV.abs, FV.chain, FV.WF, defectOf, undo, additive] <;> (try subst h) <;>
-      simp_all [setTransits, FV.abs, FV.chain, defectOf] <;> omega
+      simp_all [setFV, setTransits, transitsTail, defectTransitsTail, FV.abs, FV.chain, FV.WF, defectOf, undo, additive] <;> (try subst h) <;>
+      simp_all [setTransits, transitsTail, defectTransitsTail, FV.abs, FV.chain, defectOf] <;> omega
   | elim e' => simp [setFV] at h; subst h; simp [setFV, undo]
   | periph k' => simp [setFV] at h; subst h; simp [setFV, undo]
   | periphAdd => simp [setFV] at h; subst h; simp [setFV, undo]
@@ -183,16 +191,17 @@ theorem undo_restores_partial (r : Req) (s s' : FV) (hwf : s.WF) (hadd : additiv
 
 /-- Non-vacuity of `undo_restores_partial`: three transits in front of a depot, then back. -/
 example : let s : FV := ⟨false, 0, true, 1, .mix, false, true⟩
-    additive (.transits 3 true) s = true ∧ defectOf (.transits 3 true) s = none ∧
-    setFV (.transits 3 true) s = .ok ⟨false, 3, true, 1, .mix, false, true⟩ ∧
+    additive (.transits 3 true) s = true ∧ defectOf ⟨false⟩ (.transits 3 true) s = none ∧
+    setFV ⟨false⟩ (.transits 3 true) s = .ok ⟨false, 3, true, 1, .mix, false, true⟩ ∧
     undo (.transits 3 true) s = .transits 0 true ∧
-    defectOf (.transits 0 true) ⟨false, 3, true, 1, .mix, false, true⟩ = some .transitsDropBio := by decide
+    defectOf ⟨true⟩ (.transits 0 true) ⟨false, 3, true, 1, .mix, false, true⟩ = some .transitsDropBio := by decide
 
 /-- … and the full undo statement is false of the code: with a bioavailability the way back loses it. -/
 theorem undo_restores_witness :
-    ∃ r s s', s.WF ∧ additive r s = true ∧ defectOf r s = none ∧ setFV r s = .ok s' ∧
-      setFV (undo r s) s' ≠ .ok s :=
-  ⟨.transits 3 true, ⟨false, 0, true, 0, .fo, false, true⟩, ⟨false, 3, true, 0, .fo, false, true⟩, by decide⟩
+    ∃ c r s s', s.WF ∧ additive r s = true ∧ defectOf c r s = none ∧ setFV c r s = .ok s' ∧
+      ∀ c', setFV c' (undo r s) s' ≠ .ok s :=
+  ⟨⟨false⟩, .transits 3 true, ⟨false, 0, true, 0, .fo, false, true⟩, ⟨false, 3, true, 0, .fo, false, true⟩,
+    by decide, by decide, by decide, by decide, by intro c'; cases c' with | mk b => cases b <;> decide⟩
 
 /-! ## the graph classifiers on the canonical family (every n, every k) -/
 
